@@ -1,4 +1,6 @@
+import NomtModel.Store.WalkerSimRun
 import NomtModel.Store.WalkerSimStack
+import NomtModel.Store.WalkerGSimStack
 /-!
 # A whole script on the mirror of `PageWalker`
 
@@ -7,169 +9,22 @@ import NomtModel.Store.WalkerSimStack
 script of terminals over a page set that holds the pages on the way to the terminals never reaches a panic site and
 `conclude` returns the specified root of the new key set.
 -/
-namespace Nomt.Walker
+namespace Nomt.Walker.G
 open Nomt Nomt.TriePos
 open Nomt.Wal (PageDiff)
 
 variable {Node VH : Type} [DecidableEq Node] [DecidableEq VH] (H : Hasher Node VH) (ps : PageSet Node)
 
-/-- the `TriePosition` of a bit path (`TriePosition::new()` for the empty path, `from_bitslice` otherwise) -/
-def posOfPath (t : Path) : Pos := ⟨t ++ List.replicate (256 - t.length) false, t.length, specIndex t⟩
-
-theorem posOfPath_nil : posOfPath [] = Pos.new := rfl
-
-theorem posOfPath_fromBitslice (t : Path) (h1 : 1 ≤ t.length) (h2 : t.length ≤ 256) :
-    Pos.fromBitslice t = some (posOfPath t) := fromBitslice_eq t h1 h2
-
-theorem posOfPath_wf (t : Path) (h : t.length ≤ 256) : (posOfPath t).WF ∧ (posOfPath t).path = t := wf_ofBits t h
-
-/-- one call of a script -/
-def Walker.stepM (w : Walker Node) (s : Step VH) : WR (Walker Node) :=
-  match s.2 with
-  | some ops => w.advanceAndReplace H ps (posOfPath s.1) ops
-  | none => w.advance H (posOfPath s.1)
-
-def Walker.runM (w : Walker Node) : List (Step VH) → WR (Walker Node)
-  | [] => .ok w
-  | s :: ss =>
-    match w.stepM H ps s with
-    | .ok w' => Walker.runM w' ss
-    | .panic m => .panic m
-    | .err e => .err e
-
-/-- the flat store a page set stands for: the root, and the slots of the pages it holds -/
-def flatStore (root : Node) : Store Node := fun q =>
-  if q = [] then root else
-  match ps.get (specPage q) with
-  | some (pg, _) => pg.nodes.getD (specIndex q) H.term
-  | none => H.term
-
-/-- the slot of `q` is materialised in the page set -/
-def Mat (q : Path) : Prop := q = [] ∨ (ps.get (specPage q)).isSome = true
-
 /-! ## paths and pages -/
-
-theorem leftOf_bitsLt {a b : Path} (h : LeftOf a b) : Nomt.bitsLt a b = true := by
-  obtain ⟨p, r, s, rfl, rfl⟩ := h
-  apply bl_of_bit p.length
-  · simp [List.take_append_of_le_length]
-  · simp
-  · simp
-  · simp [List.getD, List.getElem?_append_right]
-  · simp [List.getD, List.getElem?_append_right]
-
-theorem sextetsOf_prefix (x y : Path) (hx : x.length % 6 = 0) (h : x <+: y) : sextetsOf x <+: sextetsOf y := by
-  obtain ⟨u, rfl⟩ := h
-  rw [sextetsOf_append x u hx]
-  exact List.prefix_append _ _
-
-/-- the page of a prefix is a prefix of the page -/
-theorem specPage_mono (x y : Path) (h : x <+: y) : specPage x <+: specPage y := by
-  unfold specPage
-  apply sextetsOf_prefix
-  · rw [List.length_take]
-    have := specPageBits_le x.length
-    unfold specPageBits at *
-    omega
-  · have hle : specPageBits x.length ≤ specPageBits y.length := by
-      have := h.length_le
-      unfold specPageBits; omega
-    obtain ⟨u, rfl⟩ := h
-    have h1 : specPageBits x.length ≤ x.length := specPageBits_le _
-    rw [show (x ++ u).take (specPageBits (x ++ u).length) =
-      ((x ++ u).take (specPageBits (x ++ u).length)) from rfl]
-    have : x.take (specPageBits x.length) = ((x ++ u).take (specPageBits (x ++ u).length)).take (specPageBits x.length) := by
-      rw [List.take_take, Nat.min_eq_left hle, List.take_append_of_le_length h1]
-    rw [this]
-    exact List.take_prefix _ _
-
-/-- slots of a page strictly below the page of `p ++ [false]` on the way to `t` lie to the right of `p ++ [false]` -/
-theorem page_right_of (p r q : Path) (Q : PageId) (hQ : Q <+: specPage (p ++ true :: r))
-    (hlen : (specPage (p ++ [false])).length < Q.length) (hq : q ≠ []) (hqp : specPage q = Q) :
-    LeftOf (p ++ [false]) q := by
-  -- the bits of `Q` are a prefix of `t` longer than `p`
-  have hbits : pidBits Q <+: (p ++ true :: r) := by
-    have h1 : pidBits Q <+: pidBits (specPage (p ++ true :: r)) := by
-      obtain ⟨u, hu⟩ := hQ
-      rw [← hu, pidBits_append]; exact List.prefix_append _ _
-    rw [pidBits_specPage] at h1
-    exact List.IsPrefix.trans h1 (List.take_prefix _ _)
-  have hQlen : p.length < (pidBits Q).length := by
-    rw [pidBits_length]
-    have hsl : (specPage (p ++ [false])).length = p.length / 6 := by
-      rw [specPage_length]; simp
-    omega
-  have hpQ : (p ++ [true]) <+: pidBits Q := by
-    have h2 : (p ++ [true]) <+: (p ++ true :: r) := ⟨r, by simp⟩
-    rcases prefix_comparable h2 hbits with h | h
-    · exact h
-    · have hle := h.length_le
-      have hl2 : (p ++ [true]).length = p.length + 1 := by simp
-      rw [h.eq_of_length (by omega)]
-      exact List.prefix_refl _
-  have hqQ : pidBits Q <+: q := by
-    rw [← hqp, pidBits_specPage]; exact List.take_prefix _ _
-  exact leftOf_of_branch (List.prefix_refl _) (List.IsPrefix.trans hpQ hqQ)
-
-/-- slots of a page on the way to `t` whose id is long enough lie to the right of a position that branches left of `t` -/
-theorem page_right_of' (p w' r q : Path) (Q : PageId) (hQ : Q <+: specPage (p ++ true :: r))
-    (hlen : p.length < 6 * Q.length) (hq : q ≠ []) (hqp : specPage q = Q) :
-    LeftOf (p ++ false :: w') q := by
-  have hbits : pidBits Q <+: (p ++ true :: r) := by
-    have h1 : pidBits Q <+: pidBits (specPage (p ++ true :: r)) := by
-      obtain ⟨u, hu⟩ := hQ
-      rw [← hu, pidBits_append]; exact List.prefix_append _ _
-    rw [pidBits_specPage] at h1
-    exact List.IsPrefix.trans h1 (List.take_prefix _ _)
-  have hQlen : p.length < (pidBits Q).length := by rw [pidBits_length]; exact hlen
-  have hpQ : (p ++ [true]) <+: pidBits Q := by
-    have h2 : (p ++ [true]) <+: (p ++ true :: r) := ⟨r, by simp⟩
-    rcases prefix_comparable h2 hbits with h | h
-    · exact h
-    · have hle := h.length_le
-      have hl2 : (p ++ [true]).length = p.length + 1 := by simp
-      rw [h.eq_of_length (by omega)]
-      exact List.prefix_refl _
-  have hqQ : pidBits Q <+: q := by
-    rw [← hqp, pidBits_specPage]; exact List.take_prefix _ _
-  exact leftOf_of_branch ⟨w', by simp⟩ (List.IsPrefix.trans hpQ hqQ)
-
-/-- the terminals of a walk with a parent page lie in pages strictly below it -/
-def InScope (pp : Option PageId) (steps : List (Step VH)) : Prop :=
-  ∀ P0, pp = some P0 → ∀ s ∈ steps, P0 <+: specPage s.1 ∧ P0 ≠ specPage s.1
-
-theorem inScope_depth {pp : Option PageId} {steps : List (Step VH)} (h : InScope pp steps) (s : Step VH)
-    (hs : s ∈ steps) (hne : s.1 ≠ []) : 6 * k0 pp < s.1.length := by
-  have h1 : 1 ≤ s.1.length := List.length_pos_iff.mpr hne
-  cases hp : pp with
-  | none => simp [k0]; omega
-  | some P0 =>
-    obtain ⟨hpre, hneq⟩ := h P0 hp s hs
-    have hlt : P0.length < (specPage s.1).length := by
-      rcases Nat.lt_or_ge P0.length (specPage s.1).length with hlt | hge
-      · exact hlt
-      · exact absurd (hpre.eq_of_length (Nat.le_antisymm hpre.length_le hge)) hneq
-    rw [specPage_length] at hlt
-    simp only [k0]
-    omega
-
-theorem inScope_ne {pp : Option PageId} {steps : List (Step VH)} (h : InScope pp steps) (P0 : PageId)
-    (hp : pp = some P0) (s : Step VH) (hs : s ∈ steps) : s.1 ≠ [] := by
-  intro e
-  obtain ⟨hpre, hneq⟩ := h P0 hp s hs
-  rw [e] at hpre hneq
-  have : specPage ([] : Path) = [] := rfl
-  rw [this] at hpre hneq
-  exact hneq (List.prefix_nil.mp hpre)
 
 /-! ## the page set of a walk -/
 
-/-- what the walk needs from the page set: `fresh` hands out whole pages, every page on the way to a terminal is there,
-loaded from the hash table, and the materialised slots represent `S` -/
+/-- what the walk needs from the page set: `fresh` hands out whole pages, every page on the way to a terminal is there —
+loaded from the hash table OR reconstructed (any `PageOrigin`) — with 126 slots -/
 structure PSOK (steps : List (Step VH)) : Prop where
   fresh : ∀ P, (ps.fresh P).length = 126
   load : ∀ s ∈ steps, s.1 ≠ [] → ∀ Q, Q <+: specPage s.1 →
-    ∃ pg b, ps.get Q = some (pg, .persisted b) ∧ pg.nodes.length = 126
+    ∃ pg o, ps.get Q = some (pg, o) ∧ pg.nodes.length = 126
 
 theorem pathsIn_of_psok {steps : List (Step VH)} (hps : PSOK ps steps) :
     PathsIn (Mat ps) steps := by
@@ -185,21 +40,12 @@ theorem loadable_of_psok (root : Node) {steps : List (Step VH)} (hps : PSOK ps s
     (s : Step VH) (hs : s ∈ steps) (hne : s.1 ≠ []) (Q : PageId) (hQ : Q <+: specPage s.1) (st : Store Node)
     (hst : ∀ q, q ≠ [] → specPage q = Q → st q = flatStore H ps root q) (Z : Prop) (hz : ¬ Z) :
     Loadable H ps Z st Q := by
-  obtain ⟨pg, b, hget, hl⟩ := hps.load s hs hne Q hQ
-  refine ⟨pg, .persisted b, hget, Or.inl ⟨⟨b, rfl⟩, hz⟩, hl, ?_⟩
+  obtain ⟨pg, o, hget, hl⟩ := hps.load s hs hne Q hQ
+  refine ⟨pg, o, hget, Or.inl hz, hl, ?_⟩
   intro q hq _ hqp
   rw [hst q hq hqp]
   unfold flatStore
   rw [if_neg hq, hqp, hget]
-
-/-- a terminal of `S` does not hold an internal node in a store that represents `S` -/
-theorem terminal_not_internal (hs : H.Sound) {S : List (Key × VH)} (hS : KeysOK S) {store0 : Store Node}
-    {D : Path → Prop} (hrep : Rep0 H D S store0) (t : Path) (ht : t.length ≤ 256) (hD : D t)
-    (hterm : (sub S t).length ≤ 1 ∧ Mean S t) : H.kind (store0 t) ≠ .internal := by
-  rw [hrep t ht hD hterm.2]
-  intro hk
-  have := (sub_of_kind H hs hS t ht).2.2 hk
-  omega
 
 /-! ## the invariant of the run -/
 
@@ -219,8 +65,9 @@ theorem runInv_prologue (hs : H.Sound) {D : Path → Prop} {pp : Option PageId} 
     {done todo : List (Step VH)} {s : Step VH}
     (hso : ScriptOK S S' (done ++ s :: todo)) {w : Walker Node} {a : TW Node}
     (h : RunInv H ps D pp root S S' done (s :: todo) w a) :
-    ∃ w1, w.advancePrologue H (posOfPath s.1) = .ok w1 ∧
-      Sim H ps w1 (a.compactUp H (cfgOf H ps pp) (some s.1)) ∧ Same w w1 := by
+    (∃ w1, w.advancePrologue H (posOfPath s.1) = .ok w1 ∧
+      Sim H ps w1 (a.compactUp H (cfgOf H ps pp) (some s.1)) ∧ Same w w1) ∨
+    w.advancePrologue H (posOfPath s.1) = .panic GUARD := by
   have hlen := hso.len s (by simp)
   obtain ⟨hpw, hpp⟩ := posOfPath_wf s.1 hlen
   unfold Walker.advancePrologue
@@ -238,7 +85,7 @@ theorem runInv_prologue (hs : H.Sound) {D : Path → Prop} {pp : Option PageId} 
         rw [hlp] at hp; cases hp
     rcases h.tw with ⟨hidle, _⟩ | ⟨_, hne⟩
     · rw [tw_compactUp_idle H _ a _ hidle.pos]
-      exact ⟨w, rfl, h.sim, Same.rfl' _⟩
+      exact Or.inl ⟨w, rfl, h.sim, Same.rfl' _⟩
     · exact absurd hdone hne
   | some lp =>
     simp only
@@ -269,13 +116,11 @@ theorem runInv_prologue (hs : H.Sound) {D : Path → Prop} {pp : Option PageId} 
       · obtain ⟨p, w', r, hc, ht'⟩ := hinv.todoP s (List.mem_cons_self ..)
         rw [hc, ht', sharedBits_leftOf]
         simp) [] (fun hr => absurd hr (by rw [h.norec]; simp))
-    obtain ⟨w1, hw1, hs1, hsame1⟩ := hsc
-    rw [h.par] at hs1
-    simp only [Option.map_some, hpp] at hs1
-    exact ⟨w1, hw1, hs1, hsame1⟩
-
-theorem getLast?_append_singleton {α : Type} (l : List α) (x : α) : (l ++ [x]).getLast? = some x := by
-  simp
+    rcases hsc with ⟨w1, hw1, hs1, hsame1⟩ | ⟨_, hp⟩
+    · rw [h.par] at hs1
+      simp only [Option.map_some, hpp] at hs1
+      exact Or.inl ⟨w1, hw1, hs1, hsame1⟩
+    · exact Or.inr hp
 
 /-- one call of the script keeps the invariant and does not reach a panic site -/
 theorem runInv_step (hs : H.Sound) {D : Path → Prop} {pp : Option PageId} {root : Node} {S S' : List (Key × VH)}
@@ -285,12 +130,19 @@ theorem runInv_step (hs : H.Sound) {D : Path → Prop} {pp : Option PageId} {roo
     (hDp : PathsIn D (done ++ s :: todo)) (hD0 : D []) (hscp : InScope pp (done ++ s :: todo))
     {w : Walker Node} {a : TW Node}
     (h : RunInv H ps D pp root S S' done (s :: todo) w a) :
-    ∃ w', w.stepM H ps s = .ok w' ∧
-      RunInv H ps D pp root S S' (done ++ [s]) todo w' (a.step H (cfgOf H ps pp) s) := by
+    (∃ w', w.stepM H ps s = .ok w' ∧
+      RunInv H ps D pp root S S' (done ++ [s]) todo w' (a.step H (cfgOf H ps pp) s)) ∨
+    w.stepM H ps s = .panic GUARD := by
   have hlen := hso.len s (by simp)
   have hsmem : s ∈ done ++ s :: todo := by simp
   obtain ⟨hpw, hpp⟩ := posOfPath_wf s.1 hlen
-  obtain ⟨w1, hw1, hs1, hsame1⟩ := runInv_prologue H ps hs hso h
+  rcases runInv_prologue H ps hs hso h with ⟨w1, hw1, hs1, hsame1⟩ | hp
+  case inr =>
+    right
+    unfold Walker.stepM
+    cases s.2 with
+    | none => simp only; unfold Walker.advance; rw [hp]
+    | some ops => simp only; unfold Walker.advanceAndReplace; rw [hp]
   have hpar1 : w1.parentPage = pp := hsame1.1.trans h.par
   have hnr1 : w1.reconstruction = false := hsame1.2.2.2.2.trans h.norec
   -- with a parent page the terminal is not the root position
@@ -340,7 +192,7 @@ theorem runInv_step (hs : H.Sound) {D : Path → Prop} {pp : Option PageId} {roo
     simp only
     rw [hass]
     simp only
-    refine ⟨_, rfl, ?_⟩
+    refine Or.inl ⟨_, rfl, ?_⟩
     have hstep : a.step H (cfgOf H ps pp) s = a.compactUp H (cfgOf H ps pp) (some s.1) := by
       unfold TW.step; rw [hop]; rfl
     refine ⟨?_, hnr1, hpar1, ?_, hlast' _ rfl⟩
@@ -476,7 +328,7 @@ theorem runInv_step (hs : H.Sound) {D : Path → Prop} {pp : Option PageId} {roo
       by_cases hne : s.1 = []
       · rw [hne]; exact hD0
       · exact (hDp s (by simp) s.1 (List.prefix_refl _) hne).1
-    obtain ⟨w3, hw3, hs3, hsame3, _⟩ := sim_replaceTerminal H ps hs hps.fresh hS' hs2
+    have hrt := sim_replaceTerminal H ps hs hps.fresh hS' hs2
       (by
         show (s.1 = [] ∧ w2.parentPage = none) ∨ 6 * k0 w2.parentPage < s.1.length
         by_cases hne : s.1 = []
@@ -496,9 +348,14 @@ theorem runInv_step (hs : H.Sound) {D : Path → Prop} {pp : Option PageId} {roo
         have : w2.reconstruction = false := hnr2
         rw [this]; simp))
     rw [hops]
+    rcases hrt with ⟨w3, hw3, hs3, hsame3, _⟩ | ⟨_, hp3⟩
+    case inr =>
+      right
+      have hp3' : w2.replaceTerminal H ps (sub S' s.1) = .panic GUARD := hp3
+      rw [hp3']
     have hw3' : w2.replaceTerminal H ps (sub S' s.1) = .ok w3 := hw3
     rw [hw3']
-    refine ⟨w3, rfl, ?_⟩
+    refine Or.inl ⟨w3, rfl, ?_⟩
     have hstep : a.step H (cfgOf H ps pp) s =
         ({ a1 with pos := s.1 } : TW Node).replaceTerminal H (cfgOf H ps pp) (sub S' s.1) := by
       unfold TW.step; rw [hop]; simp only
@@ -512,4 +369,4 @@ theorem runInv_step (hs : H.Sound) {D : Path → Prop} {pp : Option PageId} {roo
       · exact ⟨(idle_step_replace H D hs hS hS' hso hDp hrep _ a hidle hdone ops hop).2, by simp⟩
       · exact ⟨invB_step H D hs hS hS' hso hDp hrep _ a hinv, by simp⟩
 
-end Nomt.Walker
+end Nomt.Walker.G
